@@ -1,14 +1,49 @@
-//! Conformance harness binary: C16 padding templates, C17 artifact loaders.
+//! Conformance harness binary `vh-art`: C16 (padding templates, Templates.tla) and C17 (artifact loaders,
+//! Loaders.tla).  Subcommands read ndjson cases emitted by TLC and write ndjson observations; every call into
+//! /repo runs under `catch_unwind`; the verdict is decided in Python against the model's expectation.
+//!
+//!   templates-replay <root> <in> <out>   every (entry point, deviation set, position) cell on the real entry point
+//!   loaders-replay   <root> <in> <out>   every (loader, slot, artifact class) cell on the real loader
+//!
+//! `<root>` is a scratch directory; `<root>/canon` is produced once per run by the repo's own
+//! `generate_all_circuit_binaries(.., true, 1, Some(1))`.
+mod canon;
+mod loaders;
+mod meter;
+mod templates;
+
 use anyhow::{anyhow, Result};
+
+#[global_allocator]
+static GLOBAL: meter::Counting = meter::Counting;
 
 pub fn seed() -> u64 {
     std::env::var("VERIF_SEED").ok().and_then(|s| s.parse().ok()).unwrap_or(1)
 }
 
+/// panics of the code under test are data: keep them off stderr
+pub fn silence_panics() {
+    std::panic::set_hook(Box::new(|_| {}));
+}
+
 fn main() -> Result<()> {
     let args: Vec<String> = std::env::args().collect();
     let cmd = args.get(1).map(|s| s.as_str()).unwrap_or("");
+    let need = |n: usize| -> Result<()> {
+        if args.len() < 2 + n { Err(anyhow!("{cmd}: expected {n} arguments")) } else { Ok(()) }
+    };
+    // a loader that buffers or builds something pathological hits this ceiling instead of the machine's
+    let gib: u64 = std::env::var("VH_ART_AS_GIB").ok().and_then(|s| s.parse().ok()).unwrap_or(28);
+    meter::limit_address_space(gib);
     match cmd {
+        "templates-replay" => {
+            need(3)?;
+            templates::replay(&args[2], &args[3], &args[4])
+        }
+        "loaders-replay" => {
+            need(3)?;
+            loaders::replay(&args[2], &args[3], &args[4], seed())
+        }
         _ => Err(anyhow!("unknown subcommand {cmd}")),
     }
 }
